@@ -7,7 +7,12 @@ import (
 	"go/token"
 	"go/types"
 	"os"
+	"regexp"
+	"sort"
+	"strconv"
 	"strings"
+
+	"golang.org/x/tools/go/ssa"
 )
 
 // C10.R3, round 8 (honest twins of the i / j seeds) — part 1: an early exit that changes nothing.
@@ -1323,4 +1328,187 @@ func c10DebugObls(r *Run) {
 			fmt.Fprintf(os.Stderr, "OBL ok=%v %s @%s: %s\n", o.OK, o.Key, o.Where, o.Detail)
 		}
 	}
+}
+
+// ---- part 3 (engine side): parameter structures ------------------------------------------------------
+//
+// (updater)  A function that only the fork has, takes one value of a struct type of the package (as
+// receiver or parameter, by value), returns that type, and whose whole body is `p.f = <constant>` …
+// `return p` gives back its argument with some fields set to constants: it has no effect and no site;
+// what it does to the value is followed field by field where the value is used (the SSA executor of
+// rules_t8c10_exec.go runs it).  Its calls are no `use` sites and it is no function "on the fork side
+// only" that needs a drift entry.
+//
+// (structure parameter)  A struct parameter that only the fork's function has is not part of the
+// residual as such, but when the function hands it on to a callee in the place where upstream passes
+// a value of its own (`parseField(…, params)` where upstream has `fieldParameters{}`), what it holds
+// is compared: it is rendered as the structure literal of its fields as rules_t8c10_elem.go evaluated
+// them through every call site — a constant per field, nothing for the zero value (as in any literal),
+// nothing for a field decided not to matter, `f: ⊘` for a field that is unknown and matters.
+
+func fdUpdater(s *fdSide, fn *types.Func, fd *ast.FuncDecl) bool {
+	if fn == nil || fd == nil || fd.Body == nil || len(fd.Body.List) == 0 {
+		return false
+	}
+	info := s.pkg.TypesInfo
+	sig := fn.Type().(*types.Signature)
+	if sig.Variadic() || sig.Results().Len() != 1 {
+		return false
+	}
+	var p *types.Var
+	switch {
+	case sig.Recv() != nil && sig.Params().Len() == 0:
+		p = sig.Recv()
+	case sig.Recv() == nil && sig.Params().Len() == 1:
+		p = sig.Params().At(0)
+	default:
+		return false
+	}
+	n, ok := p.Type().(*types.Named)
+	if !ok || n.Obj().Pkg() != s.pkg.Types || !fdIsStructType(p.Type()) || !types.Identical(sig.Results().At(0).Type(), p.Type()) {
+		return false
+	}
+	isP := func(e ast.Expr) bool {
+		id, ok := fdUnparen(e).(*ast.Ident)
+		return ok && info.Uses[id] == types.Object(p)
+	}
+	last := len(fd.Body.List) - 1
+	for i, st := range fd.Body.List {
+		if i == last {
+			ret, ok := st.(*ast.ReturnStmt)
+			return ok && len(ret.Results) == 1 && isP(ret.Results[0])
+		}
+		a, ok := st.(*ast.AssignStmt)
+		if !ok || a.Tok != token.ASSIGN || len(a.Lhs) != 1 || len(a.Rhs) != 1 {
+			return false
+		}
+		sel, ok := fdUnparen(a.Lhs[0]).(*ast.SelectorExpr)
+		if !ok || !isP(sel.X) {
+			return false
+		}
+		if f, ok := info.Uses[sel.Sel].(*types.Var); !ok || !f.IsField() {
+			return false
+		}
+		if tv, ok := info.Types[a.Rhs[0]]; !ok || (tv.Value == nil && !tv.IsNil()) {
+			return false
+		}
+	}
+	return false
+}
+
+// paramStruct renders a fork-only struct parameter whose fields have been evaluated.
+func (c *fdCtx) paramStruct(o types.Object) (string, bool) {
+	if c.s.elem == nil || c.s.elem.param == nil || c.s.elem.param != o {
+		return "", false
+	}
+	st, ok := o.Type().Underlying().(*types.Struct)
+	n, isNamed := o.Type().(*types.Named)
+	if !ok || !isNamed {
+		return "", false
+	}
+	var parts []string
+	for i := 0; i < st.NumFields(); i++ {
+		f := st.Field(i)
+		if c.s.extraFields[f] {
+			continue
+		}
+		v, known := c.s.elem.fields[f]
+		switch {
+		case !known, v == "!":
+			parts = append(parts, f.Name()+": ⊘")
+		case v == "?":
+		case v == "=false", v == "=0", v == "=nil", v == `=""`:
+		default:
+			parts = append(parts, f.Name()+": "+strings.TrimPrefix(v, "="))
+		}
+	}
+	return n.Obj().Name() + "{" + strings.Join(parts, ", ") + "}", true
+}
+
+var fdLocalNum = regexp.MustCompile(`\bL([0-9]+)\b`)
+
+// fdRenumberLocals: after parts of a chain have been dropped, the locals are numbered 1, 2, … in the
+// order of their old numbers (the order of first occurrence, which dropping does not change).
+func fdRenumberLocals(text string) string {
+	seen := map[int]bool{}
+	for _, m := range fdLocalNum.FindAllStringSubmatch(text, -1) {
+		n, _ := strconv.Atoi(m[1])
+		seen[n] = true
+	}
+	var ns []int
+	for n := range seen {
+		ns = append(ns, n)
+	}
+	sort.Ints(ns)
+	to := map[int]int{}
+	for i, n := range ns {
+		to[n] = i + 1
+	}
+	return fdLocalNum.ReplaceAllStringFunc(text, func(t string) string {
+		n, _ := strconv.Atoi(t[1:])
+		return fmt.Sprintf("L%d", to[n])
+	})
+}
+
+// c10LaxPassThrough: call is a call of a function of the package that returns, on every path, the
+// parameter structure it was given as argument k with the lax field as it was (the structure is held
+// in a local reached only through its own address, nothing stores to its lax field or overwrites it
+// as a whole): k, or -1.
+func c10LaxPassThrough(li *c10LaxInfo, call *ssa.Call) int {
+	cal := call.Common().StaticCallee()
+	if cal == nil || len(cal.Blocks) == 0 || fnPkg(cal) == nil || ShortPkg(fnPkg(cal).Path()) != "asn1" || len(cal.Params) != len(call.Call.Args) {
+		return -1
+	}
+	k := -1
+	rets := Returns(cal)
+	if len(rets) == 0 {
+		return -1
+	}
+	for _, ret := range rets {
+		if len(ret.Results) != 1 {
+			return -1
+		}
+		var p *ssa.Parameter
+		switch v := ret.Results[0].(type) {
+		case *ssa.Parameter:
+			p = v
+		case *ssa.UnOp:
+			al, ok := v.X.(*ssa.Alloc)
+			if !ok || v.Op != token.MUL || !c14Private(al) {
+				return -1
+			}
+			p = paramSpill(al)
+			if p == nil {
+				return -1
+			}
+			for _, ref := range *al.Referrers() {
+				switch x := ref.(type) {
+				case *ssa.Store:
+					if x.Val != ssa.Value(p) {
+						return -1 // overwritten as a whole
+					}
+				case *ssa.FieldAddr:
+					if fieldOf(x) != li.field {
+						continue
+					}
+					for _, fr := range *x.Referrers() {
+						if _, isStore := fr.(*ssa.Store); isStore {
+							return -1
+						}
+					}
+				}
+			}
+		default:
+			return -1
+		}
+		i := paramIndex(p)
+		if i < 0 || (k >= 0 && k != i) {
+			return -1
+		}
+		k = i
+	}
+	if k >= 0 && c10StructParamWith(cal, li.field) != k {
+		return -1
+	}
+	return k
 }
